@@ -1,14 +1,16 @@
 #!/bin/sh
-# usage: tools/confirmseed.sh <ID> [pkgdir]   confirms a seeded change in a fresh scratch worktree and archives it under /verif/seeded/<ID>
+# usage: tools/confirmseed.sh <ID> [srcroot=/tmp/seed] [archive=<ID>]
+# confirms a seeded change in a fresh scratch worktree of /repo (never in /repo itself) and archives it under
+# /verif/seeded/<archive>: the suite must pass with the change, the demonstration must fail with it and pass without.
 export GOFLAGS=-mod=mod GOPROXY=off GOSUMDB=off GOTOOLCHAIN=local
-id=$1; pkg=${2:-.}
-src=/tmp/seed/$id
-w=/tmp/confirm-$id
+id=$1; root=${2:-/tmp/seed}; arch=${3:-$id}
+src=$root/$id
+w=/tmp/confirm-$arch
 rm -rf $w; git -C /repo worktree add -q --detach $w HEAD || exit 2
 cd $w
-demo=$(cd $src && find . -name "seed_demo*_test.go" -o -name "seed_demo.sh" | head -1)
+demo=$(cd $src && find . -name "*seed_demo*_test.go" -o -name "seed_demo.sh" | head -1)
 echo "demo: $demo"
-git apply $src.patch || { echo "PATCH DOES NOT APPLY"; exit 2; }
+git apply $src.patch || { echo "PATCH DOES NOT APPLY"; cd /; git -C /repo worktree remove --force $w; exit 2; }
 go build ./... && echo "build: ok" || echo "build: FAILED"
 go test -vet=off -count=1 ./... 2>&1 | grep -v "no test files" | tail -3
 echo "--- demo with change (must fail)"
@@ -17,7 +19,7 @@ cp $src/$demo $w/$demo
 echo "--- demo without change (must pass)"
 git apply -R $src.patch
 (cd $w/$(dirname $demo) && go test -vet=off -count=1 -run '^TestSeedDemo$' . 2>&1 | tail -2)
-mkdir -p /verif/seeded/$id
-cp $src.patch /verif/seeded/$id/patch.diff
-cp $src/$demo /verif/seeded/$id/$(basename $demo).txt
+mkdir -p /verif/seeded/$arch
+cp $src.patch /verif/seeded/$arch/patch.diff
+cp $src/$demo /verif/seeded/$arch/$(basename $demo).txt
 cd /; git -C /repo worktree remove --force $w
